@@ -12,3 +12,17 @@ META = {
 
 def run(ctx):
     graph_common.full(ctx)
+    if ctx.replay:
+        return
+    # C11-specific STRETCH: long chains cut into many short segments (flush after almost every
+    # delivery) so that skip lists are built (segment start max_cut >= 10, targets n/2, 3n/4 ...)
+    # and ancestry walks jump through them; all ordered pairs are queried.
+    import verif
+    vh = ctx.build("graph")
+    n4 = ctx.tlc("MC_Braid", "MC_Braid_N4.cfg", timeout=1500, cache=True, subst=graph_common._salt(ctx))
+    sub = verif.sample(ctx.rng, n4.replays, 400 if not ctx.thorough else 2500)
+    for k in (24, 60):
+        res = ctx.run_engine(vh, "braid", sub, opts={"twin": 1, "index": 1, "stretch": k, "flushy": 1},
+                             tag="index-stretch%d" % k, timeout=3000)
+        ctx.absorb(res, only_own=True)
+    ctx.cov["index_stretch_cases"] = 2 * len(sub)
